@@ -6,6 +6,7 @@ using namespace V;
 
 static Table randomRelation(Rng& r, const World& w, const FSpec& frel, std::string& desc) {
     int k = int(r.below(4));
+    if (r.chance(1, 14)) { desc = "complete"; return Table(size_t(w.N * w.N), Val::b(true)); }
     if (k == 0) { std::vector<Val> a = {Val::b(true)}; desc = "random-table"; return randomTable(r, w, frel, a); }
     int ne = r.range(1, 4); std::vector<Table> ts;
     desc = "events";
@@ -45,6 +46,8 @@ static void run(Ctx& c) {
                 else ts[size_t(i)] = r.chance(1, 2) ? Val::inf() : Val::in(r.range(0, 9));
             }
             if (r.chance(1, 8)) for (auto& v : ts) v = (mode == 0) ? Val::b(false) : (mode == 1 ? Val::in(-1) : Val::inf());   // nothing reachable
+            else if (r.chance(1, 8)) { Val cv = (mode == 0) ? Val::b(true) : Val::in(r.range(0, 3)); for (auto& v : ts) v = cv; }        // constant operand
+            else if (r.chance(1, 8)) { long half = N / 2; for (long i = 0; i < N; i++) ts[size_t(i)] = (i < half) ? ((mode == 0) ? Val::b(true) : Val::in(0)) : ((mode == 0) ? Val::b(false) : (mode == 1 ? Val::in(-1) : Val::inf())); }
             dd_edge es(FI); buildChecked(w, FI, fin, ts, es, "C09");
             for (int fwd = 0; fwd < 2; fwd++) {
                 dd_edge res(FO);
